@@ -137,6 +137,12 @@ func (x *Exec) callCommon(fr *Frame, st *State, val ssa.Value, cc *ssa.CallCommo
 		}
 	}
 	if name == "" {
+		// a function-valued struct field declared pure in a contract file
+		// (`func field:T.f` + `pure`): arbitrary result, no effect on the heap
+		if what, ok := x.pureFieldFunc(cc); ok {
+			x.trust("function-valued field " + what + " is assumed pure (arbitrary result, no effect on the heap)")
+			return x.freshOfType(st, rt, "fieldfn")
+		}
 		x.havocAll(st, fmt.Sprintf("call through a function value of unknown origin in %s", funcKey(fr.fn)))
 		return x.freshOfType(st, rt, "dyn")
 	}
@@ -175,6 +181,36 @@ func (x *Exec) callCommon(fr *Frame, st *State, val ssa.Value, cc *ssa.CallCommo
 		rec.res = res
 	}
 	return res
+}
+
+// pureFieldFunc: the call goes through a function-valued struct field that a contract
+// file declares pure (`func field:T.f` + `pure`).
+func (x *Exec) pureFieldFunc(cc *ssa.CallCommon) (string, bool) {
+	ld, ok := cc.Value.(*ssa.UnOp)
+	if !ok || ld.Op != token.MUL {
+		return "", false
+	}
+	fa, ok := ld.X.(*ssa.FieldAddr)
+	if !ok {
+		return "", false
+	}
+	pt, ok := fa.X.Type().Underlying().(*types.Pointer)
+	if !ok {
+		return "", false
+	}
+	n, ok := pt.Elem().(*types.Named)
+	if !ok || n.Obj().Pkg() == nil {
+		return "", false
+	}
+	stT, ok := n.Underlying().(*types.Struct)
+	if !ok {
+		return "", false
+	}
+	what := n.Obj().Name() + "." + stT.Field(fa.Field).Name()
+	if c := x.cs.Funcs[n.Obj().Pkg().Path()+".field:"+what]; c != nil && c.Pure {
+		return what, true
+	}
+	return "", false
 }
 
 func (x *Exec) invoke(fr *Frame, st *State, cc *ssa.CallCommon, recv V, args []V, rt types.Type, pos token.Pos) V {
